@@ -1,4 +1,5 @@
 import OntVerif.Model.Codec
+import OntVerif.Model.Sink
 /-! Line driver for C18: read scripts / write scripts over the codec model. -/
 namespace OntVerif.Driver.C18
 open OntVerif.Util OntVerif.Model.Codec
@@ -65,6 +66,34 @@ def runSer (s : Src) : List String → List String → String
     | some (.error .range) => String.intercalate " | " (acc.reverse ++ ["err:range"])
     | some (.ok (o, s')) => runSer s' r (o :: acc)
 
+/-! `K <init> op;op;…` — the sink with backing memory. init: `n` = `NewZeroCopySink(nil)` (512 zero bytes of capacity),
+`z` = zero value (no capacity), `d:<k>:<hex>` = `NewZeroCopySink(b[:k])` with `b` = the given (dirty) bytes.
+ops: the writers of the `W` lines, `reset`, `backup:<n>`. Output: `Bytes()`. -/
+open OntVerif.Model.Sink in
+def sinkOp (op : String) : Option Op :=
+  match op.splitOn ":" with
+  | ["w8", n] => n.toNat?.map .u8
+  | ["w16", n] => n.toNat?.map .u16
+  | ["w32", n] => n.toNat?.map .u32
+  | ["w64", n] => n.toNat?.map .u64
+  | ["wb", n] => some (.bool (n == "1"))
+  | ["wvu", n] => n.toNat?.map .varuint
+  | ["wvb", h] => (unhex h).map .varbytes
+  | ["wbytes", h] => (unhex h).map .bytes
+  | ["backup", n] => n.toNat?.map .backup
+  | ["reset"] => some .reset
+  | _ => none
+
+open OntVerif.Model.Sink in
+def sinkInit (t : String) : Option Sink :=
+  match t.splitOn ":" with
+  | ["n"] => some ⟨List.replicate 512 0, 0⟩
+  | ["z"] => some ⟨[], 0⟩
+  | ["d", k, h] => match k.toNat?, unhex h with
+    | some k, some mem => if k ≤ mem.length then some ⟨mem, k⟩ else none
+    | _, _ => none
+  | _ => none
+
 def handle (line : String) : String :=
   match fields line with
   | "R" :: h :: ops =>
@@ -79,6 +108,12 @@ def handle (line : String) : String :=
     match unhex h with
     | some bs => runSer ⟨bs, 0⟩ ops []
     | none => "bad-op"
+  | ["K", ini, ops] =>
+    match sinkInit ini, (ops.splitOn ";").mapM sinkOp with
+    | some s, some ops => match OntVerif.Model.Sink.runMem s ops with
+      | some s' => hexW s'.bytes
+      | none => "PANIC"
+    | _, _ => "bad-op"
   | _ => "bad-op"
 
 end OntVerif.Driver.C18
